@@ -37,6 +37,25 @@ def check(ctx, cfg):
     r3(ctx, cfg)
     r4(ctx, cfg)
     r5(ctx, cfg)
+    r6(ctx, cfg)
+
+
+def r6(ctx, cfg):
+    """premise shared with C16: "paid back in full, reduced only by slashes of that validator in the meantime" — the only
+    code that changes a queued amount is slash, which must scale it by (1 - p), rounded down, for that validator only"""
+    from rules import C16
+    C16.r2_r3(ctx, cfg, R2="C14.R6", R3="C14.R6")
+    # no other writer of queued amounts
+    F, P = cfg.facts, cfg.prov
+    writers = set()
+    for f in F.user_fns():
+        if f.file != "src/staking.rs":
+            continue
+        for b, i, st in f.stmts():
+            if st["k"] == "assign" and st["dst"]["p"] and st["dst"]["p"][-1]["k"] == "field" and st["dst"]["p"][-1].get("of", "").startswith("staking::Unbonding"):
+                writers.add(f.key.split("::{closure")[0])
+    ctx.ob("C14.R6", "-", "queued-amounts-changed-only-by-slash", writers <= {SK + "slash"}, "fields of queued Unbonding entries are written in %s" % sorted(writers),
+           sample=str(sorted(writers)))
 
 
 # ----------------------------------------------------------------------------------------- helpers
